@@ -173,8 +173,50 @@ def _events(fn, state_attr="_state", process_attr="_process"):
                 if isinstance(f, ast.Attribute) and f.attr == "remove":
                     out.append("call:remove")
 
+    def event_free(stmts):
+        n = len(out)
+        walk(stmts)
+        free = len(out) == n
+        del out[n:]
+        return free
+
     def walk(stmts):
-        for st in stmts:
+        for k, st in enumerate(stmts):
+            if (isinstance(st, ast.If) and not st.orelse and _exits(st.body) and not isinstance(st.body[-1], ast.Raise)
+                    and event_free(st.body) and k + 1 < len(stmts)):
+                # guard clause `if c: return|continue|break` = `if not c: <rest of the block>`
+                mark = len(out)
+                out.append("if{")
+                expr_calls(st.test)
+                n_test = len(out)
+                walk(stmts[k + 1:])
+                if len(out) == n_test:
+                    test_events = out[mark + 1:n_test]
+                    del out[mark:]
+                    out.extend(test_events)
+                else:
+                    out.append("}")
+                return
+            if isinstance(st, ast.If) and st.orelse and _exits(st.body) and event_free(st.body) and not event_free(st.orelse):
+                # `if c: return X  else: B` = guard clause + B
+                out.append("if{")
+                expr_calls(st.test)
+                walk(st.orelse)
+                out.append("}")
+                continue
+            if isinstance(st, ast.For) and isinstance(st.iter, (ast.Tuple, ast.List)) and not st.orelse:
+                for _ in st.iter.elts:                 # a loop over a literal sequence = its body once per element
+                    walk(st.body)
+                continue
+            if isinstance(st, ast.With) and len(st.items) == 1 and isinstance(st.items[0].context_expr, ast.Call) \
+                    and ast.unparse(st.items[0].context_expr.func) == "suppress":
+                out.append("try{")                     # `with suppress(E): B` = `try: B except E: pass`
+                walk(st.body)
+                out.append("}")
+                for a in st.items[0].context_expr.args:
+                    out.append("handler:" + ast.unparse(a) + "{")
+                    out.append("}")
+                continue
             if isinstance(st, ast.Try):
                 out.append("try{")
                 walk(st.body)
@@ -230,6 +272,23 @@ def _events(fn, state_attr="_state", process_attr="_process"):
                 expr_calls(st)
 
     walk(fn.body)
+    # `if{ T1 if{ T2 B } }` (the inner block closes the outer one, no else) = `if{ T1 T2 B }`
+    changed = True
+    while changed:
+        changed = False
+        depth_open = []
+        for i, tok in enumerate(out):
+            if tok.endswith("{"):
+                depth_open.append(i)
+            elif tok == "}":
+                j = depth_open.pop()
+                if (out[j] == "if{" and i + 1 < len(out) and out[i + 1] == "}" and depth_open and out[depth_open[-1]] == "if{"
+                        and all(not t.endswith("{") and t != "}" for t in out[depth_open[-1] + 1:j])
+                        and not (i + 2 < len(out) and out[i + 2] == "else{")):
+                    del out[i]
+                    del out[j]
+                    changed = True
+                    break
     # drop blocks without any life-cycle event inside (`if{ }`, `else{ }`), repeatedly
     changed = True
     while changed:
@@ -288,6 +347,11 @@ def extract_tables(src_root):
                         guard = sorted(set(_state_names(dec.args[0])), key=STATES.index)   # canonical order
                     elif "requires_state" in ast.dump(dec):
                         raise ValueError(f"unrecognised use of requires_state at {node.name}.{fn.name}")
+                body = [b for b in fn.body if not (isinstance(b, ast.Expr) and isinstance(b.value, ast.Constant))]
+                if (guard is None and not fn.decorator_list and len(body) == 1 and isinstance(body[0], (ast.Expr, ast.Return))
+                        and isinstance(body[0].value, ast.Call)
+                        and ast.unparse(body[0].value.func) == f"super().{fn.name}"):
+                    continue          # a purely delegating override is the same as no override
                 info["methods"][fn.name] = guard
                 if fn.name == "__init__":
                     info["tempfiles"] = sum(1 for n in ast.walk(fn) if isinstance(n, ast.Call) and (
@@ -369,11 +433,17 @@ def extract_web_rules(src_root):
     vr = next((n for n in wcls.body if isinstance(n, ast.FunctionDef) and n.name == "violate_rule"), None) if wcls else None
     if vr is None:
         raise ValueError("WebApp.violate_rule not found")
-    top_if = [n for n in vr.body if isinstance(n, ast.If)]
-    guarded = len(top_if) == 1 and ast.unparse(top_if[0].test) == "self._obey_rules" and \
-        all(isinstance(n, ast.Raise) for b in (top_if[0].body, top_if[0].orelse) for n in ast.walk(ast.Module(body=b, type_ignores=[]))
-            if isinstance(n, ast.Raise)) and any(isinstance(n, ast.Raise) for n in ast.walk(top_if[0])) and \
-        not any(isinstance(n, ast.Raise) for st in vr.body if st is not top_if[0] for n in ast.walk(st))
+    # every `raise` of violate_rule is reached only under `self.<the attribute that stores obey_rules>` (path conditions:
+    # nested ifs, guard clauses and if/else are all the same to this test)
+    winit = next((n for n in wcls.body if isinstance(n, ast.FunctionDef) and n.name == "__init__"), None)
+    obey = next((ast.unparse(n.targets[0]) for n in ast.walk(winit) if isinstance(n, ast.Assign) and isinstance(n.value, ast.Name)
+                 and n.value.id == "obey_rules"), None) if winit else None
+    raises = [n for n in ast.walk(vr) if isinstance(n, ast.Raise)]
+    guarded = obey is not None and bool(raises)
+    for r in raises:
+        c = _path_conditions(vr.body, lambda st, r=r: st is r)
+        if c is None or obey not in [ast.unparse(x) for x in c]:
+            guarded = False
     return consts, rules, guarded
 
 
@@ -397,11 +467,28 @@ def extract_mapping(src_root):
     tests = [n.test for n in fn.body if isinstance(n, ast.If) and isinstance(n.test, ast.Compare)]
     if len(tests) != 1 or len(tests[0].ops) != 1:
         raise ValueError("map_sequence: expected exactly one `if len(...) <op> len(...)`")
-    left, right = ast.unparse(tests[0].left), ast.unparse(tests[0].comparators[0])
-    if "sequence.alphabet" not in left or "ProteinSequence.alphabet" not in right:
+    # module-level constants and locals with one assignment are looked through (`_SIZE = len(ProteinSequence.alphabet)`)
+    env = {}
+    for st in list(utree.body) + [x for x in fn.body]:
+        if isinstance(st, ast.Assign) and len(st.targets) == 1 and isinstance(st.targets[0], ast.Name):
+            env[st.targets[0].id] = ast.unparse(st.value)
+    param = fn.args.args[0].arg if fn.args.args else "sequence"
+
+    def resolved(node):
+        import copy
+
+        class Subst(ast.NodeTransformer):
+            def visit_Name(self, n):
+                return ast.parse(env[n.id], mode="eval").body if (n.id in env and n.id != param) else n
+        node = copy.deepcopy(node)
+        for _ in range(3):
+            node = Subst().visit(node)
+        return ast.unparse(node)
+    left, right = resolved(tests[0].left), resolved(tests[0].comparators[0])
+    if f"{param}.alphabet" not in left or "ProteinSequence.alphabet" not in right:
         raise ValueError("map_sequence: size test has an unexpected shape: " + ast.unparse(tests[0]))
     code_taken_over = any(isinstance(n, ast.Assign) and ast.unparse(n.targets[0]).endswith(".code") and
-                          ast.unparse(n.value) == "sequence.code" for n in ast.walk(fn))
+                          ast.unparse(n.value) == f"{param}.code" for n in ast.walk(fn))
     return letters, type(tests[0].ops[0]).__name__, code_taken_over
 
 # ---- structural helpers (pass 8): facts are found by what the code does, names of locals / private attributes / private
@@ -509,10 +596,28 @@ def _locals_in_order(fn):
     return m
 
 
-def _norm(node, fn, roles):
-    """`ast.unparse` of a node with locals / parameters renamed positionally and private attributes replaced by their roles."""
+def _class_attrs(cls_node, roles):
+    """Private attributes of a class without a role, numbered by their first assignment (`__init__` first): name -> A<k>."""
+    order = []
+    fns = [n for n in cls_node.body if isinstance(n, ast.FunctionDef)]
+    fns.sort(key=lambda f: f.name != "__init__")
+    for f in fns:
+        class V(ast.NodeVisitor):
+            def visit_Attribute(self, node):
+                self.generic_visit(node)
+                if isinstance(node.ctx, ast.Store) and isinstance(node.value, ast.Name) and node.value.id == "self" \
+                        and node.attr.startswith("_") and node.attr not in roles and node.attr not in order:
+                    order.append(node.attr)
+        V().visit(f)
+    return {a: f"A{k}" for k, a in enumerate(order)}
+
+
+def _norm(node, fn, roles, cls_node=None):
+    """`ast.unparse` of a node with locals / parameters renamed positionally and private attributes replaced by their roles
+    (or, inside a class, by their position among the class's own private attributes)."""
     import copy
-    return ast.unparse(ast.fix_missing_locations(_Renamer(_locals_in_order(fn), roles).visit(copy.deepcopy(node))))
+    amap = dict(_class_attrs(cls_node, roles), **roles) if cls_node is not None else roles
+    return ast.unparse(ast.fix_missing_locations(_Renamer(_locals_in_order(fn), amap).visit(copy.deepcopy(node))))
 
 
 def discover_roles(src_root):
@@ -567,7 +672,10 @@ def discover_roles(src_root):
     params = [a.arg for a in init.args.args if a.arg != "self"]
     put(assigned(init, lambda v: isinstance(v, ast.Name) and params and v.id == params[0]), "BIN_PATH", "stores the bin_path parameter")
     put(first_store(fn(L, "set_arguments")), "ARGUMENTS", "set_arguments() stores")
-    put(first_store(fn(L, "add_additional_options")), "OPTIONS", "add_additional_options() extends")
+    def mentioned(f):
+        return next((self_attr(n) for n in ast.walk(f) if self_attr(n) and n.attr.startswith("_")), None)
+    put(first_store(fn(L, "add_additional_options")) or mentioned(fn(L, "add_additional_options")), "OPTIONS",
+        "add_additional_options() extends")
     put(first_store(fn(L, "set_exec_dir")), "EXEC_DIR", "set_exec_dir() stores")
     if roles.get(first_store(fn(L, "set_stdin"))) != "STDIN":
         raise ValueError("set_stdin() does not store the attribute that is passed to Popen as stdin")
@@ -699,8 +807,9 @@ def extract_facts(src_root):
     is_fin = lambda st: isinstance(st, ast.Assign) and u(st.value) == "AppState.FINISHED"     # noqa: E731
     add("Application.get_app_state.finished-when", conds(gas, is_fin, "get_app_state: assignment of FINISHED"))
     dec = fn_of(t, "requires_state")
-    wrapper = next((n for n in ast.walk(dec) if isinstance(n, ast.FunctionDef) and n.name != "decorator" and n is not dec
-                    and any(isinstance(r, ast.Raise) for r in ast.walk(n))), None)
+    wrapper = next((n for n in ast.walk(dec) if isinstance(n, ast.FunctionDef) and n is not dec
+                    and any(isinstance(r, ast.Raise) for r in ast.walk(n))
+                    and not any(isinstance(x, ast.FunctionDef) for st in n.body for x in ast.walk(st))), None)
     if wrapper is None:
         raise ValueError("requires_state: inner wrapper not found")
     is_state_err = lambda st: isinstance(st, ast.Raise) and st.exc is not None and "AppStateError" in u(st.exc)[:14]     # noqa: E731
@@ -738,13 +847,13 @@ def extract_facts(src_root):
     add("LocalApp.join.process-calls", " / ".join(_norm(n, lj, roles) for n in _ordered(lj) if isinstance(n, ast.Call)
                                                  and isinstance(n.func, ast.Attribute) and n.func.attr in ("communicate", "wait", "poll")))
     ev = fn_of(L, "evaluate")
-    eif = [n for n in ev.body if isinstance(n, ast.If)]
-    if len(eif) != 1 or not isinstance(eif[0].test, ast.Compare) or not (
-            len(eif[0].test.ops) == 1 and isinstance(eif[0].test.comparators[0], ast.Constant)):
-        raise ValueError("LocalApp.evaluate: expected one `if <exit code> <op> <constant>`")
-    add("LocalApp.evaluate.fail-op", type(eif[0].test.ops[0]).__name__)
-    add("LocalApp.evaluate.fail-const", u(eif[0].test.comparators[0]))
-    add("LocalApp.evaluate.raises", exc_of(eif[0]))
+    is_raise = lambda st: isinstance(st, ast.Raise) and st.exc is not None     # noqa: E731
+    c = _path_conditions(ev.body, is_raise)
+    if c is None or len(c) != 1 or not (isinstance(c[0], ast.Compare) and len(c[0].ops) == 1 and isinstance(c[0].comparators[0], ast.Constant)):
+        raise ValueError("LocalApp.evaluate: the raise is not governed by exactly one `<exit code> <op> <constant>`")
+    add("LocalApp.evaluate.fail-op", type(c[0].ops[0]).__name__)
+    add("LocalApp.evaluate.fail-const", u(c[0].comparators[0]))
+    add("LocalApp.evaluate.raises", exc_of(next(st for st in _ordered(ev) if is_raise(st))))
     cu = fn_of(L, "clean_up")
     is_kill = lambda st: isinstance(st, ast.Expr) and isinstance(st.value, ast.Call) and isinstance(st.value.func, ast.Attribute) \
         and roles.get(getattr(st.value.func.value, "attr", None)) == "PROCESS"     # noqa: E731
@@ -755,7 +864,10 @@ def extract_facts(src_root):
                                                 and isinstance(n.func, ast.Attribute) and roles.get(getattr(n.func.value, "attr", None)) == "PROCESS"))
     add("get_version.defaults", defaults(fn_of(t, "get_version")))
     ct = fn_of(t, "cleanup_tempfile")
-    add("cleanup_tempfile.tolerates", ",".join(u(h.type) for n in ast.walk(ct) if isinstance(n, ast.Try) for h in n.handlers))
+    add("cleanup_tempfile.tolerates", ",".join([u(h.type) for n in ast.walk(ct) if isinstance(n, ast.Try) for h in n.handlers]
+                                               + [u(a) for n in ast.walk(ct) if isinstance(n, ast.With) for it in n.items
+                                                  if isinstance(it.context_expr, ast.Call) and u(it.context_expr.func) == "suppress"
+                                                  for a in it.context_expr.args]))
     imported = sorted(a.name for n in t.body if isinstance(n, ast.ImportFrom) and n.module == "biotite.application.application" for a in n.names)
     add("localapp.imports-from-application", ",".join(imported))
 
@@ -850,13 +962,14 @@ def extract_facts(src_root):
             add(f"{cname}.version-before-super", str(sup is not None and sup > i.body.index(vif)))
         if cname == "ClustalOmegaApp":
             cev = fn_of(C, "evaluate")
-            add("ClustalOmegaApp.evaluate.tests", " / ".join(u(n.test) for n in cev.body if isinstance(n, ast.If)))
+            add("ClustalOmegaApp.evaluate.tests", " / ".join(_norm(n.test, cev, roles, C) for n in cev.body if isinstance(n, ast.If)))
             add("ClustalOmegaApp.evaluate.distmat", next((u(n.func) + " skiprows=" + next((u(k.value) for k in n.keywords if k.arg == "skiprows"), "?")
                                                          for n in _ordered(cev) if isinstance(n, ast.Call) and "loadtxt" in u(n.func)), "?"))
             add("ClustalOmegaApp.evaluate.distmat-columns", next((u(n.slice) for n in _ordered(cev) if isinstance(n, ast.Subscript)
                                                                  and isinstance(n.slice, ast.Tuple)), "?"))
-            add("ClustalOmegaApp.get_distance_matrix.test", " / ".join(u(n.test) for n in fn_of(C, "get_distance_matrix").body if isinstance(n, ast.If)))
-            add("ClustalOmegaApp.run.tests", " / ".join(u(n.test) for n in fn_of(C, "run").body if isinstance(n, ast.If)))
+            gdm, crun = fn_of(C, "get_distance_matrix"), fn_of(C, "run")
+            add("ClustalOmegaApp.get_distance_matrix.test", " / ".join(_norm(n.test, gdm, roles, C) for n in gdm.body if isinstance(n, ast.If)))
+            add("ClustalOmegaApp.run.tests", " / ".join(_norm(n.test, crun, roles, C) for n in _ordered(crun) if isinstance(n, (ast.If, ast.IfExp))))
             sup = next((n for n in _ordered(fn_of(C, "__init__")) if isinstance(n, ast.Call) and u(n.func) == "super().__init__"), None)
             add("ClustalOmegaApp.super-matrix", u(sup.args[-1]) if sup is not None and sup.args else "?")
         if cname == "MuscleApp":
@@ -875,7 +988,8 @@ def extract_facts(src_root):
             add("MuscleApp.set_gap_penalty.branches", " || ".join(branches))
             gt = fn_of(C, "get_guide_tree")
             add("MuscleApp.get_guide_tree.defaults", defaults(gt))
-            add("MuscleApp.get_guide_tree.tests", " / ".join(_norm(n.test, gt, roles) + "->" + u(n.body[0]) for n in ast.walk(gt) if isinstance(n, ast.If)))
+            add("MuscleApp.get_guide_tree.tests", " / ".join(_norm(n.test, gt, roles, C) + "->" + _norm(n.body[0], gt, roles, C)
+                                                             for n in ast.walk(gt) if isinstance(n, ast.If)))
             add("MuscleApp.run.gap-format", ",".join(sorted({v.format_spec.values[0].value for n in ast.walk(fn_of(C, "run")) if isinstance(n, ast.JoinedStr)
                                                               for v in n.values if isinstance(v, ast.FormattedValue) and v.format_spec is not None})))
             add("MuscleApp.align.defaults", defaults(fn_of(C, "align")))
@@ -914,7 +1028,13 @@ def extract_facts(src_root):
     t = parse("util.py")
     mm = fn_of(t, "map_matrix")
     add("map_matrix.none-test", next((_norm(n.test, mm, roles) + "->" + exc_of(n) for n in mm.body if isinstance(n, ast.If)), "?"))
-    add("map_matrix.corner", next((_norm(n, mm, roles) for n in mm.body if isinstance(n, ast.Assign) and isinstance(n.targets[0], ast.Subscript)), "?"))
+    corner = next((n for n in mm.body if isinstance(n, ast.Assign) and isinstance(n.targets[0], ast.Subscript)), None)
+    if corner is None:
+        raise ValueError("map_matrix: assignment of the old scores not found")
+    sl = corner.targets[0].slice
+    square = (isinstance(sl, ast.Tuple) and len(sl.elts) == 2 and all(isinstance(e, ast.Slice) and e.lower is None and e.upper is not None
+                                                                      for e in sl.elts) and u(sl.elts[0].upper) == u(sl.elts[1].upper))
+    add("map_matrix.corner", ("upper-left square = " + _norm(corner.value, mm, roles)) if square else _norm(corner, mm, roles))
     return facts
 
 
